@@ -47,6 +47,12 @@ def switchesOf (j : Json) : Except String Switches := do
   pure { attrsLoopFailsOnNoMatch := a.getD pySwitches.attrsLoopFailsOnNoMatch,
          attrsBlankFails := b.getD pySwitches.attrsBlankFails }
 
+def glueSwitchesOf (j : Json) : Except String GlueSwitches := do
+  let a : Option Bool ← optArg j "wrapsSingleSigner"
+  let b : Option Bool ← optArg j "wrapsSingleResponseBundle"
+  pure { wrapsSingleSigner := a.getD pyGlueSwitches.wrapsSingleSigner,
+         wrapsSingleResponseBundle := b.getD pyGlueSwitches.wrapsSingleResponseBundle }
+
 def fileOracleOf (j : Json) : Except String FileOracle := do
   let b : Bytes ← arg j "bytes"
   let st : Option Nat ← optArg j "statSize"
@@ -98,21 +104,21 @@ def pkgDOps : List (String × Op) := [
       let s ← textArg j "s"; let sw ← switchesOf j
       pure (outJson (fun d => xvalJson (.dict d)) (parseKsr pyClasses sw s))),
   ("request_from_xml", fun j => do
-      let s ← textArg j "s"; let sw ← switchesOf j
-      pure (loadJson (requestFromXmlL pyClasses sw s))),
+      let s ← textArg j "s"; let sw ← switchesOf j; let gs ← glueSwitchesOf j
+      pure (loadJson (requestFromXmlL pyClasses sw gs s))),
   ("response_from_xml", fun j => do
-      let s ← textArg j "s"; let sw ← switchesOf j
-      pure (loadJson (responseFromXmlL pyClasses sw s))),
+      let s ← textArg j "s"; let sw ← switchesOf j; let gs ← glueSwitchesOf j
+      pure (loadJson (responseFromXmlL pyClasses sw gs s))),
   ("load_ksr", fun j => do
-      let f ← fileOracleOf j; let sw ← switchesOf j
+      let f ← fileOracleOf j; let sw ← switchesOf j; let gs ← glueSwitchesOf j
       let p : RequestPolicy ← arg j "policy"; let now : Int ← arg j "now"; let v ← verifierOf j
       let ro : Option Bool ← optArg j "raiseOriginal"
-      let r := loadKsr pyClasses sw v now f p (ro.getD false)
+      let r := loadKsr pyClasses sw gs v now f p (ro.getD false)
       pure (Json.mkObj [("result", loadJson r.result), ("readCalled", toJson r.readCalled)])),
   ("load_skr", fun j => do
-      let f ← fileOracleOf j; let sw ← switchesOf j
+      let f ← fileOracleOf j; let sw ← switchesOf j; let gs ← glueSwitchesOf j
       let p : ResponsePolicy ← arg j "policy"; let v ← verifierOf j
-      let r := loadSkr pyClasses sw v f p
+      let r := loadSkr pyClasses sw gs v f p
       pure (Json.mkObj [("result", loadJson r.result), ("readCalled", toJson r.readCalled)]))
 ]
 
